@@ -140,3 +140,14 @@ func VerifConfigureInMemory(app *protocol.ApplicationContext, name, configRoot s
 func (module *InMemoryStorage) VerifSettings() (intervals int, expireGroup, minDistance int64, workers, queueDepth int) {
 	return module.intervals, module.expireGroup, module.minDistance, module.numWorkers, module.queueDepth
 }
+
+// VerifHoldConsumerReadLock takes the read lock on the cluster's group map, as a concurrent reader does (a consumer
+// list, a topic deletion walking the groups), and returns the function that releases it; nil for an unknown cluster.
+func (module *InMemoryStorage) VerifHoldConsumerReadLock(cluster string) func() {
+	clusterMap, ok := module.offsets[cluster]
+	if !ok {
+		return nil
+	}
+	clusterMap.consumerLock.RLock()
+	return clusterMap.consumerLock.RUnlock
+}
